@@ -37,10 +37,52 @@ def violations_of(rel):
     return bad
 
 
-def _dot_leaves():
-    dots = [".", "%2e", "%2E"]
-    return ([a + b for a in dots for b in dots] + dots + [a + b + "x" for a in dots for b in dots][:4] +
-            ["%2F", "%2f..", "..%2F", "..%5C", "%5C..", "%252e%252e", "%25", "%2", "%2g"])
+# ---------------------------------------------------------------------------------------------
+# Hostile-name dictionaries.  A path builder is only as safe as its LAST transformation: whatever a
+# maintainer adds around the leaf (trimming whitespace or markers, stripping or replacing extensions,
+# percent-decoding, case folding, unicode normalisation) can turn a harmless-looking name into one
+# of the cores below after the validation ran.  So every core is generated in every spelling that
+# such a step could map onto it, wrapped (before / after / both, with and without padding) in every
+# token such a step could remove: whitespace, known markers, extensions and the string literals of
+# the lookup code itself.
+CORE_SPELLINGS = {
+    "..": ["..", "%2e%2e", "%2E%2E", "%2e%2E", "%2E%2e", "%2e.", "%2E.", ".%2e", ".%2E", "\uff0e\uff0e", "\u2025",
+           ".\u200b.", ". .", ".\t.", "%252e%252e", "%252E%252E", "..\x00", ".\u0307."],
+    "": ["", " ", "\t", "\u00a0", "\u3000", "%20", "%00", "\u200b"],
+    "C:": ["C:", "c:", "C\uff1a", "\uff23:", "C%3A", "C%3a", "C:x", "z:\u00e9", "C\u200b:"],
+    ".": [".", "%2e", "%2E", "\uff0e"],
+    "/": ["%2f", "%2F", "%5c", "%5C", "\uff0f", "\u2215", "\uff3c", "%252f"],
+}
+EXACT = ["..", "", "C:"]                      # the cores themselves: full product below
+WS = [" ", "  ", "    ", "\t", "\u00a0", "\u3000"]
+MARKERS = [" (deleted)", "(deleted)", " [vdso]", ";1", " (copy)", "~", ".bak", ".", "..", "%20", "\x00"]
+EXTS = [".pdb", ".PDB", ".Pdb", ".dll", ".DLL", ".sym", ".so", ".so.6", ".exe", ".dylib", ".dbg", ".pd_", ".dl_"]
+DIRS = ["", "/d/", "C:\\x\\", "a\\b/", "\\\\?\\C:\\", "//srv/share/"]
+# characters that are syntax to a URL parser, in every percent spelling
+URL_PUNCT = ".:/\\?#%@"
+
+
+def pct_spellings(ch):
+    h = "%02x" % ord(ch)
+    forms = {ch, "%" + h, "%" + h.upper(), "%" + h[0].upper() + h[1], "%" + h[0] + h[1].upper(), "%25" + h, "%25" + h.upper()}
+    return sorted(forms)
+
+
+def dot_segment_spellings():
+    d = [".", "%2e", "%2E"]
+    return d + [a + b for a in d for b in d]
+
+
+def wrapped(core_spelling, wrappers, pads=("", " ")):
+    out = []
+    for w in wrappers:
+        for pad in pads:
+            if pad and (w[:1].isspace() or not w):
+                continue
+            out += [core_spelling + pad + w, w + pad + core_spelling]
+        if len(w) <= 4:
+            out.append(w + core_spelling + w)
+    return out
 
 
 class C17(PropBase):
@@ -148,17 +190,34 @@ class C17(PropBase):
                  b"Windows", b"kernel32", b".pdb", b".PDB", b".Pdb", b".dll", b".DLL", b".sym", b".so", b" ", b"\t", b"\x00", b"%2e",
                  "\u00e9".encode(), "\u212a".encode(), "\u0130".encode(), "\U0001f600".encode(), b"pdb", b"dll", b"_", b"-", b"~", b"..."]
         nrand = 3000 if tier == "quick" else 60000
-        # dictionary block: every source literal as / around the leaf, with each hostile decoration
-        lits = [l.encode() for l in self.source_literals()]
-        atoms += [l for l in lits if len(l) <= 12]
-        decos = [b"", b"..", b".", b"/", b"\\", b"C:", b"a/", b"a/..", b"../", b"..\\", b" "]
-        for l in lits:
-            for d in decos:
-                for w in (d + l, l + d, d + l + d):
+        # dictionary block (see CORE_SPELLINGS): core spelling x wrapper x position x directory style x role
+        lits = [l for l in self.source_literals() if l]
+        atoms += [l.encode() for l in lits if len(l) <= 12]
+        wrappers = WS + MARKERS + EXTS + [l for l in lits if len(l) <= 24]
+        rot = [0]
+
+        def emit(leaf, full):
+            dirs = DIRS if full else [DIRS[(rot[0] + i) % len(DIRS)] for i in (0, 3)]
+            rot[0] += 1
+            for d in dirs:
+                w = (d + leaf).encode()
+                roles = [(w, w), (b"k.dll", w), (w, b"t.pdb")] if full else [[(w, w), (b"k.dll", w), (w, b"t.pdb")][rot[0] % 3]]
+                for cf, df in roles:
                     did, cid = pick_ids()
-                    cases.append("%s %s %s %s" % (hx(w), hx(w), did, cid))
-                    cases.append("%s %s %s %s" % (hx(b"k.dll"), hx(w), ids[2], cids[2]))
-                    dist["dictionary"] += 2
+                    if did == "N":
+                        did = ids[2]
+                    cases.append("%s %s %s %s" % (hx(cf), hx(df), did, cid if cid != "N" else cids[2]))
+                    dist["dictionary"] += 1
+
+        for core, spellings in CORE_SPELLINGS.items():
+            for sp in spellings:
+                exact = sp in EXACT
+                emit(sp, True)
+                for leaf in wrapped(sp, wrappers, pads=("", " ", "  ") if exact else ("", " ")):
+                    emit(leaf, exact and len(leaf) <= 40)
+        for l in lits:                     # the literals on their own and doubled (strip-once vs strip-all)
+            for leaf in (l, l + l, l + " " + l, l.upper(), l.lower()):
+                emit(leaf, False)
 
         def rstr():
             n = rng.range(0, 12) if rng.chance(3, 4) else rng.range(10, 60)
@@ -171,14 +230,20 @@ class C17(PropBase):
                 cid = hx(rstr())
             cases.append("%s %s %s %s" % (hx(cf), hx(df) if rng.chance(19, 20) else "N", did, cid))
             dist["random"] += 1
+        cases = list(dict.fromkeys(cases))
         return cases, dist, True
 
     # ------------------------------------------------------------------ correspondence
     def canon_impl(self, case, ans, profile):
-        return ans.split("|", 1)[0]
+        return "" if case.startswith("B ") else ans.split("|", 1)[0]
+
+    def canon_model(self, case, ans):
+        return "" if case.startswith("B ") else ans
 
     # ------------------------------------------------------------------ oracle (independent of the model)
     def oracle(self, case, ans, profile):
+        if case.startswith("B "):
+            return None                       # url-probe-only case (replay)
         if ans.startswith("P;;"):
             return "a lookup builder panicked: " + ans[3:200]
         parts = ans.split("|")
@@ -207,65 +272,137 @@ class C17(PropBase):
             return "an identifier rendered with non-hex characters: %r %r" % (unhx(a), unhx(b))
         return None
 
-    # ------------------------------------------------------------------ end-to-end URL probe (not modelled)
-    URL_LEAVES = ["a.pdb", "http:x", "https:x.pdb", "ab:c.pdb", "%2e%2e", ".%2e", "%2E%2e", "\t", " x", "x ", ".\t.", "\n..", ".\r.",
-                  "a?b", "a#b", "a b+c.pdb", "libstdc++.so.6", "\u00e9.pdb", "javascript:x", "1:x", "a%2fb", "%5c", "\x7f", "\x01.", "..\t",
-                  "file:x", "x:/y", "?", "#", "%", "~", "a;b=c", "@", "&", "[", "]", "{", "|", "^", "`", "\"", "<", ">", ".", "..."]
+    # ------------------------------------------------------------------ end-to-end URL probe, predicted by the model
+    IDENT = hx("5A9832E5287241C1838ED98914E9B7FF1")
 
-    URL_LEAVES = URL_LEAVES + _dot_leaves()
+    def url_leaves(self):
+        """(leaf, dangerous) — dangerous leaves get the full directory x role x id product"""
+        dots = dot_segment_spellings()
+        out = [(d, True) for d in dots]
+        for ch in URL_PUNCT:
+            for f in pct_spellings(ch):
+                out += [(f, True), (f + f, True), ("a" + f, False), (f + "a", False), ("a" + f + "b", False), (f + "." , False), ("." + f, False)]
+        for core, spellings in CORE_SPELLINGS.items():
+            out += [(sp, False) for sp in spellings]
+        for d in dots:
+            for f in pct_spellings("/") + pct_spellings("\\"):
+                out += [(d + f, False), (f + d, False), (d + f + d, False)]
+            for w in [" ", "\t", "\n", "\r", "\x00", "\x7f", "?", "#", ":", "@", ";", "%"]:
+                out += [(d + w, False), (w + d, False)]
+        out += [(x, False) for x in ["a.pdb", "http:x", "https:x.pdb", "ab:c.pdb", "javascript:x", "file:x", "x:/y", "1:x", "a?b", "a#b",
+                                     "a b+c.pdb", "libstdc++.so.6", "\u00e9.pdb", "a;b=c", "&", "[", "]", "{", "|", "^", "`", "\"", "<", ">",
+                                     "...", "%", "%2", "%2g", "%zz", "My%20App.pdb", "100%.pdb", "%41", "a%00b", "\x01.", "x ", " x"]]
+        for l in self.source_literals():
+            out += [(l, False), (".." + l, False), (l + "..", False), ("%2E%2E" + l, False), (l + "%2e", False)]
+        seen, uniq = set(), []
+        for leaf, dang in out:
+            if "\ud800" <= leaf[:1] <= "\udfff" or not leaf:
+                continue
+            if leaf not in seen or dang:
+                if leaf in seen:
+                    uniq = [(l2, d2 or (l2 == leaf)) for l2, d2 in uniq]
+                    continue
+                seen.add(leaf)
+                uniq.append((leaf, dang))
+        return uniq
 
     def url_cases(self, seed):
         rng = Rng(seed + 17)
-        ident = hx("5A9832E5287241C1838ED98914E9B7FF1")
-        cases = ["%s %s %s %s" % (hx("k.dll"), hx(l), ident, hx("5a")) for l in self.URL_LEAVES]
-        cases += ["%s N %s %s" % (hx(l), "N", hx("5a")) for l in self.URL_LEAVES[:25]]      # code-info lookup path
+        ids = [self.IDENT, hx("0" * 33), hx("3C0D21E41")]
+        cases = []
+        rot = 0
+        for leaf, dang in self.url_leaves():
+            dirs = DIRS if dang else [DIRS[rot % len(DIRS)]]
+            rot += 1
+            for d in dirs:
+                w = d + leaf
+                variants = [("k.dll", w, self.IDENT), (w, w, ids[rot % 3]), (w, "N", "N")]
+                if dang:
+                    variants += [(w, "t.pdb", ids[1]), ("k.dll", w, ids[2])]
+                for cf, df, did in variants:
+                    cases.append("%s %s %s %s" % (hx(cf), "N" if df == "N" else hx(df), did, hx("5a")))
         atoms = ["a", ".", "%", "2", "e", "E", ":", "?", "#", "\t", " ", "\n", "\\"[0], "http", "x", "\u00e9", "+", "-",
                  "%2e", "%2E", "%2f", "%2F", "%5c", "%5C", "%25", ".."] + [l for l in self.source_literals() if len(l) <= 12]
-        for l in self.source_literals():
-            for form in (l, ".." + l, l + "..", "." + l, "%2E%2E" + l):
-                cases.append("%s %s %s %s" % (hx("k.dll"), hx(form), ident, hx("5a")))
-        for _ in range(160):
+        for _ in range(200):
             l = "".join(rng.choice(atoms) for _ in range(rng.range(1, 6)))
-            cases.append("%s %s %s %s" % (hx("k.dll"), hx(l), ident, hx("5a")))
-        return cases
+            cases.append("%s %s %s %s" % (hx("k.dll"), hx(l), self.IDENT, hx("5a")))
+        # server URLs through the same parser: validates the model's path parser incl. every dot-segment spelling
+        dots = dot_segment_spellings()
+        bases = ["", "root", "root/", "a/b/c", "a/b/c/"]
+        for d in dots:
+            bases += [d, d + "/", "a/" + d, "a/" + d + "/", "a/b/" + d + "/c", "a/" + d + "/" + d, d + "/a", "a/b/" + d + "x", "a/x" + d + "/y",
+                      "a\\" + d + "\\b", "a/b/" + d + "?q", "a/b/" + d + "#f", "a/b/" + d + "\t", "a/b/\t" + d, "a/b/ " + d]
+            for e in dots:
+                bases.append("a/b/" + d + "/" + e + "/z")
+        batoms = ["a", "b", ".", "..", "%2e", "%2E", "/", "/", "\\"[0], "?", "#", "%", " ", "\t", "\n", "\u00e9", "{", "}", "\"", "<", ">",
+                  "`", "^", "|", ":", "@", ";", "%25", "%2f", "+", "~", "'"]
+        for _ in range(500):
+            bases.append("".join(rng.choice(batoms) for _ in range(rng.range(1, 8))))
+        for bsuf in dict.fromkeys(bases):
+            cases.append("B %s" % hx(bsuf))
+        return list(dict.fromkeys(cases))
+
+    @staticmethod
+    def _targets(field):
+        return [unhx(r).decode("utf-8", "replace") for r in field.split(",")] if field else []
 
     def extra(self, ctx):
-        """HttpSymbolSupplier::locate_symbols against a loopback server that records every request:
-        whenever a lookup path exists, the request must arrive, below the base URL's path."""
+        """HttpSymbolSupplier (locate_symbols, locate_file Binary / ExtraDebugInfo) against a loopback server that records
+        every request.  (1) oracle: every request arrives below the base URL's path, and a lookup path always produces a
+        request; (2) correspondence: the Coq model (join_rel + the modelled part of Url::join) predicts every request path."""
         if ctx.get("replay"):
             cases = [c for c in ctx["cases"] if c]
         else:
             cases = self.url_cases(ctx["seed"])
         out = []
-        n_req = 0
+        n_req = n_cmp = 0
+        model_exe = vlib.ocaml_build(self.pid)
+        mans, mdead = vlib.run_lines([model_exe, "--url"], cases, timeout=300, mem_gb=8)
+        if mdead:
+            raise vlib.CheckFailure("c17 url model died at case %s" % cases[mdead[0][0]][:200])
         for prof in self.profiles:
             exe = ctx["exes"][("c17", prof)]
-            ans, dead = vlib.run_lines([exe, "--url-probe"], cases, timeout=300, mem_gb=8, shards=4)
+            ans, dead = vlib.run_lines([exe, "--url-probe"], cases, timeout=300, mem_gb=8, shards=16)
             for idx, why in dead:
                 out.append({"case": cases[idx], "profile": prof, "found_input": True,
                             "what": "url probe: implementation child died or hung on this case (%s)" % why})
-            for c, a in zip(cases, ans):
+            for c, a, m in zip(cases, ans, mans):
                 if a is None:
                     continue
                 if a.startswith("P;;"):
                     out.append({"case": c, "profile": prof, "found_input": True, "what": "url probe panicked: " + a[3:200]})
                     continue
-                _, rel, reqs = a.split("|")
-                targets = [unhx(r).decode("utf-8", "replace") for r in reqs.split(",")] if reqs else []
-                n_req += len(targets)
-                for t in targets:
-                    path = t.split("?", 1)[0]
-                    segs = path.split("/")
-                    if not path.startswith("/root/") or ".." in segs:
-                        out.append({"case": c, "profile": prof, "found_input": True,
-                                    "what": "url probe: server_rel %r was requested as %r, outside the server root /root/" % (
-                                        unhx(rel).decode("utf-8", "replace") if rel != "N" else None, t)})
-                if rel != "N" and not targets:
-                    out.append({"case": c, "profile": prof, "found_input": True,
-                                "what": "url probe: server_rel %r produced no request to the configured server (the URL resolved elsewhere)"
-                                        % unhx(rel).decode("utf-8", "replace")})
+                parts = a.split("|")
+                base_case = parts[0] == "B"
+                rel = None if base_case or parts[1] == "N" else unhx(parts[1]).decode("utf-8", "replace")
+                calls = [self._targets(f) for f in (parts[1:] if base_case else parts[2:])]
+                n_req += sum(len(t) for t in calls)
+                bad = None
+                if not base_case:
+                    for t in [t for call in calls for t in call]:
+                        path = t.split("?", 1)[0]
+                        segs = [x.lower().replace("%2e", ".") for x in path.split("/")]
+                        if not path.startswith("/root/") or ".." in segs:
+                            bad = "url probe: a lookup path (breakpad_sym server_rel = %r) was requested as %r, outside the server root /root/" % (rel, t)
+                            break
+                    if bad is None and rel is not None and not calls[0]:
+                        bad = ("url probe: server_rel %r produced no request to the configured server (the URL resolved elsewhere)" % rel)
+                if bad:
+                    out.append({"case": c, "profile": prof, "found_input": True, "what": bad})
+                    continue
+                # model vs url crate
+                mparts = m.split("|")
+                mcalls = [[("ELSEWHERE" if x in ("ELSEWHERE", "P") else unhx(x).decode("utf-8", "replace")) for x in f.split(",")] if f else []
+                          for f in mparts[1:]]
+                got = [[t.split("?", 1)[0] for t in call] for call in calls]
+                want = [[x for x in call if x != "ELSEWHERE"] for call in mcalls]
+                n_cmp += 1
+                if got != want[:len(got)] or len(want) != len(got):
+                    out.append({"case": c, "profile": prof, "found_input": False,
+                                "what": "url correspondence: the model (join_rel + Url::join) predicts requests %r, the url crate made %r" % (want, got)})
         ctx["info"]["url_probe_cases"] = len(cases) * len(self.profiles)
         ctx["info"]["url_probe_requests_observed"] = n_req
+        ctx["info"]["url_probe_predictions_compared"] = n_cmp
         return out
 
     def nontrivial(self, case, ans):
